@@ -308,10 +308,17 @@ def _dumps_xml(data, **kwargs):
 
     if theory == "SGP/SGP4":  # pragma: no branch
         tle_params = ET.SubElement(data_tag, "tleParameters")
+        # Only the orbits created by Tle.orbit() carry the original Tle object
+        tle = getattr(data, "tle", None)
+
         ephemeris_type = ET.SubElement(tle_params, "EPHEMERIS_TYPE")
-        ephemeris_type.text = "0"
+        ephemeris_type.text = str(
+            tle.type if tle else getattr(data, "ephemeris_type", 0)
+        )
         classification = ET.SubElement(tle_params, "CLASSIFICATION_TYPE")
-        classification.text = "U"
+        classification.text = (
+            tle.classification if tle else getattr(data, "classification_type", "U")
+        )
         norad_id = ET.SubElement(tle_params, "NORAD_CAT_ID")
         norad_id.text = str(data.norad_id)
         element_nb = ET.SubElement(tle_params, "ELEMENT_SET_NO")
